@@ -190,7 +190,9 @@ void sample_states(const char *where) {
                 // messages not yet delivered to this module are discarded
                 for (auto &sd : W->sends)
                     for (int e : sd.eligible) if (e == s.idx && !sd.delivered.count(e)) sd.dead.insert(e);
-                if (s.pills_pending && flush_phase_now()) {
+                if (s.pills_pending && (flush_phase_now() || cb_on_stack(CB_EVT, s.idx))) {
+                    // (also: the handler running now may be the hand-over of batched events that precedes a pill already read from the
+                    // mailbox - the pill then still stops the module once the handler returns, even if the handler restarted it)
                     // the final flush walks a list of messages it has already taken out of the mailbox: a pill in that list is still
                     // honoured if the module is stopped and restarted by an earlier message of the same list (unconstrained phase)
                     s.pill_wildcard = true;
